@@ -1,12 +1,16 @@
 package c15
 
 import (
+	"archive/tar"
 	"archive/zip"
 	"bytes"
 	"compress/gzip"
+	"encoding/csv"
 	"encoding/json"
 	"encoding/xml"
 	"io"
+	"strconv"
+	"strings"
 	"time"
 
 	"github.com/quay/goval-parser/oval"
@@ -187,6 +191,96 @@ func validRecords(spool []byte) bool {
 			Enrichment json.RawMessage
 		}
 		if len(raw) == 0 || raw[0] != '{' || json.Unmarshal(raw, &rec) != nil {
+			return false
+		}
+	}
+}
+
+// validEPSSCSV: the decompressed EPSS file is a well-formed CSV of the expected shape.
+func validEPSSCSV(plain []byte) bool {
+	rd := csv.NewReader(bytes.NewReader(plain))
+	rd.FieldsPerRecord = -1
+	recs, err := rd.ReadAll()
+	if err != nil || len(recs) < 2 {
+		return false
+	}
+	if len(recs[0]) != 2 || !strings.HasPrefix(recs[0][0], "#model_version:") || !strings.HasPrefix(recs[0][1], "score_date:") {
+		return false
+	}
+	if len(recs[1]) != 3 || recs[1][0] != "cve" || recs[1][1] != "epss" || recs[1][2] != "percentile" {
+		return false
+	}
+	for _, r := range recs[2:] {
+		if len(r) != 3 {
+			return false
+		}
+		for _, f := range r[1:] {
+			if _, err := strconv.ParseFloat(f, 64); err != nil {
+				return false
+			}
+		}
+	}
+	return true
+}
+
+// validNVD: the decompressed NVD year file is one well-formed JSON document of the expected shape.
+func validNVD(plain []byte) bool {
+	var v struct {
+		Count string            `json:"CVE_data_numberOfCVEs"`
+		Items []json.RawMessage `json:"CVE_Items"`
+	}
+	if !validJSONInto(plain, &v) {
+		return false
+	}
+	if _, err := strconv.Atoi(v.Count); err != nil {
+		return false
+	}
+	for _, it := range v.Items {
+		var c struct {
+			CVE struct {
+				Meta struct{ ID string } `json:"CVE_data_meta"`
+			} `json:"cve"`
+			Impact struct {
+				V3 struct {
+					CVSS json.RawMessage `json:"cvssV3"`
+				} `json:"baseMetricV3"`
+			} `json:"impact"`
+		}
+		if json.Unmarshal(it, &c) != nil {
+			return false
+		}
+	}
+	return true
+}
+
+// validVEXArchive: the zstd stream reads to its end, the tar archive inside
+// ends with its end-of-archive marker, every member is a CSAF document.
+func validVEXArchive(transit []byte) bool {
+	plain, ok := decompressAll("zstd", transit)
+	if !ok {
+		return false
+	}
+	// the end-of-archive marker (two zero blocks) must be there
+	if len(plain) < 1024 || len(plain)%512 != 0 || !bytes.Equal(plain[len(plain)-1024:], make([]byte, 1024)) {
+		return false
+	}
+	tr := tar.NewReader(bytes.NewReader(plain))
+	for {
+		h, err := tr.Next()
+		if err == io.EOF {
+			return true
+		}
+		if err != nil {
+			return false
+		}
+		if h.Typeflag != tar.TypeReg {
+			continue
+		}
+		b, err := io.ReadAll(tr)
+		if err != nil || !json.Valid(b) {
+			return false
+		}
+		if _, err := csaf.Parse(bytes.NewReader(b)); err != nil {
 			return false
 		}
 	}
